@@ -129,6 +129,12 @@ class Walk:
                     self.failure('not-found-lists-locations',
                                  f'{where}: message does not name {cands[0]}: {msg!r}',
                                  'absolute-message')
+                # "and nowhere else": the only place searched is the path itself
+                other = [d for d in (self.cwd, self.subd, self.blt) if d in msg.split('\n')]
+                if other:
+                    self.failure('not-found-lists-locations',
+                                 f'{where}: an absolute name is looked up only at itself, yet the '
+                                 f'error lists {other}: {msg!r}', 'absolute-message-lists-other-places')
                 return
             lines = msg.split('\n')
             must = []
